@@ -283,7 +283,7 @@ pub fn plan(tier: &str) -> (PropMeta, Vec<Job>) {
     let meta = PropMeta {
         id: "C09",
         level: "exploration",
-        rule: "part 1: all 2^10 global records x (no stream record | 2^6 stream-1 flags x (no topic table | empty table | 2^4 flags for topic 1)) = 1 180 672 permission records (plus the same topic flags attached to topic 2 for the id-confusion check), each evaluated by every one of the 35 real rule functions on targets (stream,topic) in {1,2}x{1,2}; oracles: no panic, monotonicity under every single added flag / added record, isolation (stream 1 records never open stream 2; a topic-1 record never opens topic 2), topic-id symmetry of stream-level operations, root grants everything, and an upper bound from the most generous reading of the documented hierarchy. A case is non-trivial and distinct by its record. part 2: every System operation under sessions that never logged in / are stale; part 3: for each of the 30 permission-checked System operations on each target (stream,topic) in {(1,1),(2,1),(1,2)} (stream id and topic id differ, so a call site that swaps or fixes an argument shows) and one user per record in {none, root, every single flag, every pair of single flags} over the 38 flags (10 global, 6 per record of stream 1 / stream 2, 4 per topic record of (stream,topic) in {1,2}x{1,2}) = 743 records (pairs, because most operations look their target up under one rule before asking their own), in a world that is fresh after every performed change: the operation is never performed when its rule function says unauthorized; part 4: every SDK call over TCP before login, and permission updates / user deletions observed on an already open second connection; part 6: every HTTP route (44 method/path pairs with plausible bodies) with no Authorization header, a garbage bearer, a token signed with another key, and basic credentials: HTTP 401 unless the path is one the server declares public, catalogue and files unchanged; part 5: every history (depth 3 quick / 4 thorough) of create-or-update and delete operations for two users over 12 permission records (one per table / index the Permissioner keeps, for streams 1 and 2, so user ids coincide and differ with stream ids) on the real Permissioner: every rule outcome for every user must equal that of a Permissioner given only the final records, and a deleted user is denied everything".into(),
+        rule: "part 1: all 2^10 global records x (no stream record | 2^6 stream-1 flags x (no topic table | empty table | 2^4 flags for topic 1)) = 1 180 672 permission records (plus the same topic flags attached to topic 2 for the id-confusion check), each evaluated by every one of the 35 real rule functions on targets (stream,topic) in {1,2}x{1,2}; oracles: no panic, monotonicity under every single added flag / added record, isolation (stream 1 records never open stream 2; a topic-1 record never opens topic 2), topic-id symmetry of stream-level operations, root grants everything, and an upper bound from the most generous reading of the documented hierarchy. A case is non-trivial and distinct by its record. part 2: every System operation under sessions that never logged in / are stale; part 3: for each of the 36 permission-checked System operations (every rule call site in server/src/streaming/systems; those that need a registered client run on a logged-in connection of the user) on each target (stream,topic) in {(1,1),(2,1),(1,2)} (stream id and topic id differ, so a call site that swaps or fixes an argument shows) and one user per record in {none, root, every single flag, every pair of single flags} over the 38 flags (10 global, 6 per record of stream 1 / stream 2, 4 per topic record of (stream,topic) in {1,2}x{1,2}) = 743 records (pairs, because most operations look their target up under one rule before asking their own), in a world that is fresh after every performed change: the operation is never performed when its rule function says unauthorized; part 4: every SDK call over TCP before login, and permission updates / user deletions observed on an already open second connection; part 6: every HTTP route (44 method/path pairs with plausible bodies) with no Authorization header, a garbage bearer, a token signed with another key, and basic credentials: HTTP 401 unless the path is one the server declares public, catalogue and files unchanged; part 5: every history (depth 3 quick / 4 thorough) of create-or-update and delete operations for two users over 12 permission records (one per table / index the Permissioner keeps, for streams 1 and 2, so user ids coincide and differ with stream ids) on the real Permissioner: every rule outcome for every user must equal that of a Permissioner given only the final records, and a deleted user is denied everything".into(),
         bounds: json!({"records": 1180672, "rule_functions": 35, "targets": TARGETS}),
         assumptions: vec![
             "the reference for the upper bound resolves every ambiguity of the documentation towards 'allowed' (manage_* includes sending), so it can only under-report".into(),
@@ -448,7 +448,7 @@ fn part1(pj: &PermJob, res: &mut JobResult) {
 const WIRE_TARGETS: [(u32, u32); 3] = [(1, 1), (2, 1), (1, 2)];
 const WIRE_SLICES: usize = 16;
 /// part 3 operations that change nothing when performed: the world is kept for the next case
-const WIRE_READ_ONLY: [usize; 10] = [0, 1, 6, 7, 14, 18, 20, 23, 24, 28];
+const WIRE_READ_ONLY: [usize; 13] = [0, 1, 6, 7, 14, 18, 20, 23, 24, 28, 30, 32, 33];
 
 #[derive(Clone, Copy, Debug)]
 enum Flag {
@@ -760,7 +760,7 @@ fn part23(pj: &PermJob, res: &mut JobResult) {
     // (authorised destructive operations really run); refused and read-only cases keep theirs
     let mut world: Option<CatWorld> = None;
     for (label, perms) in recs {
-        let nops = 30;
+        let nops = 36;
         for opi in 0..nops {
             let mut w = match world.take() {
                 Some(w) => w,
@@ -790,6 +790,7 @@ fn part23(pj: &PermJob, res: &mut JobResult) {
                 let shared = w.node.shared();
                 let snap0 = if pj.part == 2 { w.snapshot(false).ok() } else { None };
                 let perms2 = perms.clone();
+                let part = pj.part;
                 let r: Result<(String, bool, Option<bool>), String> = w.node.try_block_on(async {
                     let mut p = Permissioner::default();
                     p.init_permissions_for_user(2, perms2);
@@ -849,7 +850,31 @@ fn part23(pj: &PermJob, res: &mut JobResult) {
                         26 => run!("update_user", s.update_user(&sess, &sid(2), Some("renamed".to_string()), None).await.map(|_| ()), p.update_user(2)),
                         27 => run!("update_permissions", s.update_permissions(&sess, &sid(2), None).await, p.update_permissions(2)),
                         28 => run!("get_clients", s.get_clients(&sess).await.map(|_| ()), p.get_clients(2)),
-                        _ => run!("delete_user", s.delete_user(&sess, &sid(2)).await.map(|_| ()), p.delete_user(2)),
+                        29 => run!("delete_user", s.delete_user(&sess, &sid(2)).await.map(|_| ()), p.delete_user(2)),
+                        30 => run!("get_consumer_group", s.get_consumer_group(&sess, &sid(st), &sid(tp), &sid(1)).map(|_| ()), p.get_consumer_group(2, st, tp)),
+                        31 => run!("change_password(of root)", s.change_password(&sess, &sid(1), "iggy", "secret-new-1").await, p.change_password(2)),
+                        _ => {
+                            // operations that need a registered client: a connection of user 2 (part 2: the session as it is)
+                            let own = if part == 3 {
+                                let a2: std::net::SocketAddr = "127.0.0.1:6".parse().unwrap();
+                                let c = s.add_client(&a2, server::streaming::clients::client_manager::Transport::Tcp).await;
+                                s.login_user("usr", "pw-one-1", Some(&c)).await.map_err(|e| format!("login of user 2 failed: {e:?}")).unwrap();
+                                Some(c)
+                            } else {
+                                None
+                            };
+                            let cs: &Session = own.as_deref().unwrap_or(&sess);
+                            let out = match opi {
+                                32 => run!("get_client(own)", s.get_client(cs, cs.client_id).await.map(|_| ()), p.get_client(2)),
+                                33 => run!("get_client(unknown id)", s.get_client(cs, 987_654).await.map(|_| ()), p.get_client(2)),
+                                34 => run!("join_consumer_group", s.join_consumer_group(cs, &sid(st), &sid(tp), &sid(1)).await, p.join_consumer_group(2, st, tp)),
+                                _ => run!("leave_consumer_group", s.leave_consumer_group(cs, &sid(st), &sid(tp), &sid(1)).await, p.leave_consumer_group(2, st, tp)),
+                            };
+                            if let Some(c) = own {
+                                s.delete_client(c.client_id).await;
+                            }
+                            out
+                        }
                     }
                 });
                 res.evaluations += 1;
